@@ -220,7 +220,7 @@ def run(ctx: Ctx) -> None:
 
     # ---- inputs of other dtypes: the rounding always runs on a float32 copy, so a value representable in float16 /
     #      bfloat16 / float64 gives, for every draw, the float32 result cast to that dtype
-    for (E, M, sb) in ((4, 3, 3), (2, 0, 2), (5, 2, 4), (3, 1, 5)):
+    for (E, M, sb) in ((4, 3, 3), (2, 0, 2), (5, 2, 4), (3, 1, 5), (2, 7, 3), (3, 7, 2), (4, 10, 3), (2, 10, 4)):
         f = FPFormat(E, M, "stochastic", srbits=sb)
         R = 1 << sb
         B_ = 2 ** (E - 1)
@@ -228,6 +228,11 @@ def run(ctx: Ctx) -> None:
         base_ = torch.tensor([0.0, 0.25, 0.5, 0.75, 1.0, 1.3125, 1.5, 2.0, 2.5, 3.0, 5.0, 6.5], dtype=torch.float32)
         x1 = torch.cat([base_ * 2.0 ** (1 - B_ - M), base_ * 2.0 ** (1 - B_), base_, -base_ * 2.0 ** (1 - B_)])
         for dt_ in (torch.float64, torch.float16, torch.bfloat16):
+            # only dtypes that can hold every value of the format (as in C13)
+            probe_ = torch.tensor([2.0 ** (2 ** E - 1 - B_) * (2 - 2.0 ** -M), 2.0 ** (1 - B_ - M), 2.0 ** (1 - B_) * (1 + 2.0 ** -M)],
+                                  dtype=torch.float64)
+            if not torch.equal(probe_.to(dt_).to(torch.float64), probe_):
+                continue
             xs_ = x1.to(dt_).to(torch.float32)          # keep only what the dtype can hold
             key = {"E": E, "M": M, "srbits": sb, "input_dtype": str(dt_)}
 
@@ -253,6 +258,43 @@ def run(ctx: Ctx) -> None:
                                       {"got": got[:, j].float().unique().tolist()[:4], "want": want[:, j].unique().tolist()[:4]})
             finally:
                 torch.randint = real_randint
+
+    # ---- the process-wide default dtype (torch.set_default_dtype) is not an argument of quantise: results for float32
+    #      tensors, including values beyond the format's range and 0-dim tensors, are the same under any default
+    old_default = torch.get_default_dtype()
+    for (E, M, sb) in ((5, 10, 3), (4, 3, 2), (6, 9, 4), (3, 8, 3)):
+        f = FPFormat(E, M, "stochastic", srbits=sb)
+        R = 1 << sb
+        mx = f.max_absolute_value
+        xs_ = torch.tensor([0.3, -1.7, mx, mx * (1 + 2.0 ** -12), mx * 1.5, -mx * 4, mx * (1 - 2.0 ** -(M + 2))], dtype=torch.float32)
+
+        def enum_randint3(low, high, size, dtype=None, **kw):
+            if len(tuple(size)) == 0:
+                return torch.tensor(high - 1, dtype=dtype or torch.int64)       # 0-dim tensor: the largest draw
+            return (low + torch.arange(size[0], dtype=dtype or torch.int64)).unsqueeze(1).expand(tuple(size)).contiguous()
+
+        X = xs_.unsqueeze(0).expand(R, len(xs_)).contiguous()
+        torch.randint = enum_randint3
+        try:
+            want = f.quantise(X)
+            want0 = f.quantise(torch.tensor(mx * 2, dtype=torch.float32))
+            for dd in (torch.float64, torch.bfloat16, torch.float16):
+                key = {"E": E, "M": M, "srbits": sb, "default_dtype": str(dd)}
+                ctx.count(key, bucket="default-dtype")
+                try:
+                    torch.set_default_dtype(dd)
+                    with ctx.guard("C14:default-dtype", key):
+                        got = f.quantise(X)
+                        got0 = f.quantise(torch.tensor(mx * 2, dtype=torch.float32))
+                        if got.dtype != torch.float32 or not torch.equal(got, want) or not torch.equal(got0, want0):
+                            ctx.violation("C14:default-dtype", "the result for a float32 tensor depends on torch's global default dtype "
+                                          "(e.g. the clamp bound is no longer the format's maximum)", key,
+                                          {"got_max": float(got.abs().max()), "want_max": float(want.abs().max())})
+                finally:
+                    torch.set_default_dtype(old_default)
+        finally:
+            torch.randint = real_randint
+            torch.set_default_dtype(old_default)
 
     ctx.distinct_extra += distinct
     ctx.samples = [{"E": 4, "M": 3, "srbits": 5, "x_bits": 0x3FA66666, "draws": "all 32"}]
